@@ -497,7 +497,7 @@ func main() {
 		s := Shape{T: "line", A: a, B: a, R: []float64{genSize(r)}}
 		h.addEval(evalDesc{s, genPointNear(r, s), false}, "degenerate-eval")
 	}
-	for i := 0; i < 12; i++ {
+	for i := 0; i < 48; i++ {
 		s := genNestedCone(r)
 		p := genPointNear(r, s)
 		if i%2 == 0 {
